@@ -77,7 +77,9 @@ fn fspec() -> impl Strategy<Value = FSpec> {
 }
 
 fn pspec() -> impl Strategy<Value = PSpec> {
-    (any::<bool>(), vec(fspec(), 0..=5)).prop_map(|(nothing_except, filters)| PSpec { nothing_except, filters })
+    // rare: long filter lists (around the one-byte length prefix of the storage encoding, and a few hundred)
+    let n = prop_oneof![400 => 0usize..=5, 1 => 126usize..=130, 1 => 250usize..=300];
+    (any::<bool>(), n.prop_flat_map(|n| vec(fspec(), n))).prop_map(|(nothing_except, filters)| PSpec { nothing_except, filters })
 }
 
 fn keyrel() -> impl Strategy<Value = KeyRel> {
@@ -194,6 +196,9 @@ fn note_nontrivial(o: &mut Outcome, p: &PSpec, key: &[u8]) {
     if p.filters.len() >= 2 && hits >= 1 && hits < p.filters.len() {
         o.nontrivial = true;
         o.class("mixed-hit-and-miss");
+    }
+    if p.filters.len() >= 126 {
+        o.class("policy-with->=126-filters");
     }
     if p.filters.iter().any(|f| std::str::from_utf8(&f.bytes).is_err()) {
         o.nontrivial = true;
